@@ -7,7 +7,10 @@
 (*   kinds: "I" fetch, "J" branch address, "K" stack, "L" byte data,       *)
 (*          "M" word data, "N" internal                                    *)
 (* A result of -1 means "the properties do not define this cost"           *)
-(* (on-chip I/O register addresses; areas 3-5 when DRAM select >= 2).      *)
+(* (on-chip I/O register addresses).                                       *)
+(* Which areas are DRAM space is the hardware manual's DRAS2-0 table       *)
+(* (DRCRA bits 7-5): 000 none; 001 area 2; 010/011 areas 2,3; 100 areas    *)
+(* 2-4; 101/110/111 areas 2-5.                                             *)
 (***************************************************************************)
 EXTENDS H8Map
 
@@ -23,7 +26,7 @@ BusRegs(mem) == [abwcr |-> Rd(mem, ABWCR), astcr |-> Rd(mem, ASTCR), wcrh |-> Rd
 CostDefined(br, a) ==
   /\ a >= 0 /\ a < A24
   /\ ~InIo(a)
-  /\ (AreaOf(a) \in {3, 4, 5} /\ ~InRam(a) => br.drcra \div 32 <= 1)
+DramAreas(dras) == CASE dras = 0 -> {} [] dras = 1 -> {2} [] dras \in {2, 3} -> {2, 3} [] dras = 4 -> {2, 3, 4} [] OTHER -> {2, 3, 4, 5}
 
 CycleCost(kind, n, a, br) ==
   IF kind = "N" THEN n
@@ -31,7 +34,7 @@ CycleCost(kind, n, a, br) ==
   ELSE IF InRam(a) THEN 2 * n
   ELSE LET area == AreaOf(a)
            w8   == Bit(br.abwcr, area) = 1
-           dram == area = 2 /\ br.drcra \div 32 >= 1
+           dram == area \in DramAreas(br.drcra \div 32)
            s3   == Bit(br.astcr, area) = 1
            wait == WaitOf(br.wcrh, br.wcrl, area)
            acc  == IF w8 /\ kind \in {"I", "J", "K", "M"} THEN 2 ELSE 1
